@@ -117,7 +117,7 @@ prop("C09",
      ["dpkt's block classes parse option lists correctly"], controls=["c09-label-too-long"])
 
 prop("C10",
-     lambda tier: [cli.rule_D4, cli.rule_A6c, mirror.rule_B3_bind],
+     lambda tier: [cli.rule_D4, cli.rule_A6c, mirror.rule_B3_bind, state.rule_D6_reinit],
      "Decides that configuration reaches every site: option table, int conversions, -m ⇒ keep_original_ports False, every server-port rewrite in both "
      "builders is control-dependent on that flag and the flag's provenance at every construction site is args.keep_original_ports, mapped/default port "
      "choice, client port never written (D4); Session creation dominated by the server-port membership test (A6c); the side whose port is a server port "
